@@ -851,3 +851,9 @@ def extra_offset_sequences(eng, tier, seed):
 
 
 EXTRA_CHECKS = list(globals().get("EXTRA_CHECKS", [])) + [extra_offset_sequences]
+
+
+# effect obligations (AST, complete for what they state): no memoising decorator, no module-level state - see specs/common.py
+from .common import no_hidden_state_check as _no_hidden_state_check  # noqa: E402
+EXTRA_CHECKS = list(globals().get("EXTRA_CHECKS", [])) + [_no_hidden_state_check(
+    ["pydsdl._serializable._array", "pydsdl._serializable._composite", "pydsdl._data_schema_builder"], "the offset iterators and the schema builder")]
